@@ -20,4 +20,4 @@ def kn(n, x):
     return scipy.special.kn(n, x)
 
 
-defvjp(kn, None, lambda ans, n, x: lambda g: - g * 0.5 * (kn(np.abs(n - 1), x) + kn(n + 1, x)))
+defvjp(kn, None, lambda ans, n, x: lambda g: - g * 0.5 * (kn(abs(int(n) - 1), x) + kn(int(n) + 1, x)))
